@@ -1,0 +1,82 @@
+//! Verification hooks. Compiled only with `--cfg rustfmt_verif`; thin `pub`
+//! wrappers around crate-private functions so that an external harness can run
+//! them on chosen inputs. Nothing here is reachable from the normal build.
+#![allow(unreachable_pub, missing_docs)]
+
+use crate::config::{Config, EmitMode, FileName};
+use crate::emitter::FormattedFile;
+
+/// Diff / report construction (rustfmt_diff.rs, emitter/*.rs).
+pub mod diff {
+    use super::*;
+    use crate::rustfmt_diff::{self, DiffLine, ModifiedLines};
+
+    /// 0 = Left (only in `a`), 1 = Both, 2 = Right (only in `b`).
+    pub fn diff_script(a: &str, b: &str) -> Vec<(u8, String)> {
+        ::diff::lines(a, b)
+            .into_iter()
+            .map(|r| match r {
+                ::diff::Result::Left(l) => (0u8, l.to_owned()),
+                ::diff::Result::Both(l, _) => (1u8, l.to_owned()),
+                ::diff::Result::Right(r) => (2u8, r.to_owned()),
+            })
+            .collect()
+    }
+
+    /// (line_number, line_number_orig, lines) with line kind 0 = Context,
+    /// 1 = Expected (only in `b`), 2 = Resulting (only in `a`).
+    pub fn make_diff(a: &str, b: &str, context: usize) -> Vec<(u32, u32, Vec<(u8, String)>)> {
+        rustfmt_diff::make_diff(a, b, context)
+            .into_iter()
+            .map(|m| {
+                let lines = m
+                    .lines
+                    .into_iter()
+                    .map(|l| match l {
+                        DiffLine::Context(s) => (0u8, s),
+                        DiffLine::Expected(s) => (1u8, s),
+                        DiffLine::Resulting(s) => (2u8, s),
+                    })
+                    .collect();
+                (m.line_number, m.line_number_orig, lines)
+            })
+            .collect()
+    }
+
+    pub fn modified_lines(a: &str, b: &str) -> ModifiedLines {
+        ModifiedLines::from(rustfmt_diff::make_diff(a, b, 0))
+    }
+}
+
+/// Run the emitter selected by `config` (emit_mode, make_backup, ...) on the
+/// given (name, original, formatted) triples: header, one call per file,
+/// footer. Returns the bytes written to `out` and each call's `has_diff`
+/// (or the I/O error text).
+pub fn emit_files(
+    config: &Config,
+    files: &[(FileName, String, String)],
+) -> (Vec<u8>, Vec<Result<bool, String>>) {
+    let mut out: Vec<u8> = Vec::new();
+    let mut emitter = crate::create_emitter(config);
+    let mut res = Vec::new();
+    let _ = emitter.emit_header(&mut out);
+    for (name, orig, fmt) in files {
+        let r = emitter.emit_formatted_file(
+            &mut out,
+            FormattedFile {
+                filename: name,
+                original_text: orig,
+                formatted_text: fmt,
+            },
+        );
+        res.push(r.map(|e| e.has_diff).map_err(|e| e.to_string()));
+    }
+    let _ = emitter.emit_footer(&mut out);
+    (out, res)
+}
+
+pub fn config_with_emit_mode(mode: EmitMode) -> Config {
+    let mut c = Config::default();
+    c.set().emit_mode(mode);
+    c
+}
